@@ -78,3 +78,59 @@ Theorem C18_sorted_input_never_panics : forall compress decompress c,
   exists s lg m, w_run_gen vsink vs_wr vs_fl vs_count compress c vs_empty es = (len es, Done (s, lg, m)).
 Proof. exact w_run_progress. Qed.
 Print Assumptions C18_sorted_input_never_panics.
+
+(* ---- the panic point of the WHOLE writer (any sink that does not itself panic, any insert sequence):
+   where a run panics and why ---- *)
+From Grenad.proofs Require Import WriterPanic.
+
+(* an entry the data block under construction refuses (key not strictly above its last key, or key/value
+   longer than u32::MAX) panics at exactly that insert, whatever was inserted before and whatever follows *)
+Theorem C18_writer_panics_at_the_offending_insert : forall SK wr fl cnt compress c s0 pre k v post st,
+  reaches SK wr cnt compress c s0 pre st -> data_violation (w_data st) k v ->
+  w_run_gen SK wr fl cnt compress c s0 (pre ++ (k, v) :: post) = (len pre, Panic).
+Proof. exact w_run_data_violation. Qed.
+Print Assumptions C18_writer_panics_at_the_offending_insert.
+
+(* one insert, classified: success means the data block accepted the entry; a panic is the order assertion of
+   the data block on (k, v), or of an index block of the writer on the key k it is asked to record *)
+Theorem C18_insert_outcomes : forall SK wr cnt compress c,
+  12 < wc_block_size c ->
+  (forall s b, wr s b <> Panic) -> (forall a b d, compress a b d <> Panic) ->
+  forall st k v n, wst_inv SK c st -> cap SK n st -> n + 2 <= U32_MAX ->
+  match w_insert SK wr cnt compress c st k v with
+  | Done st' => cap SK (n + 1) st' /\ exists es, bw_ok (w_data st) es /\ order_ok es k v
+  | Panic => data_violation (w_data st) k v \/ exists p, In p (w_idx st) /\ record_violation p k
+  | Fail _ => True
+  end.
+Proof.
+  intros SK wr cnt compress c HB Hw Hc.
+  exact (w_insert_cases SK wr (fun s => Done s) cnt compress c HB Hw (fun s H => ltac:(discriminate H)) Hc).
+Qed.
+Print Assumptions C18_insert_outcomes.
+
+(* every panic of a run (fewer than 2^32 - 2 inserts) is one of the two order assertions the property names:
+   at insert i, of the data block on that entry or of an index block on that key; at into_inner, of an index
+   block on the last key of a pending block *)
+Theorem C18_every_panic_is_an_order_violation : forall SK wr fl cnt compress c,
+  12 < wc_block_size c ->
+  (forall s b, wr s b <> Panic) -> (forall s, fl s <> Panic) -> (forall a b d, compress a b d <> Panic) ->
+  forall s0 es i, wc_levels c < 256 -> len es + 2 <= U32_MAX ->
+  w_run_gen SK wr fl cnt compress c s0 es = (i, Panic) ->
+  exists pre st, reaches SK wr cnt compress c s0 pre st /\ i = len pre /\
+    ((exists k v post, es = pre ++ (k, v) :: post /\
+        (data_violation (w_data st) k v \/ exists p, In p (w_idx st) /\ record_violation p k))
+     \/ (es = pre /\ exists p key, In p (w_idx st) /\ record_violation p key /\
+           (bw_last (w_data st) = Some key \/ exists q, In q (w_idx st) /\ bw_last q = Some key))).
+Proof. exact w_run_panic_cause. Qed.
+Print Assumptions C18_every_panic_is_an_order_violation.
+
+(* non-vacuity: with one entry per block, a key that jumps back over a block boundary is accepted by the
+   fresh data block and refused by the index block that has to record it — at the next cut (insert 1) —
+   and a duplicate inside a block panics at its own insert; an ascending input gives a file *)
+Example C18_whole_writer_examples :
+  let c := mk_wcfg 0 0 16 1 0 in
+  (match w_run compress_none c [([5], [1;1;1;1;1;1;1;1;1;1;1;1;1;1;1;1]); ([3], [1;1;1;1;1;1;1;1;1;1;1;1;1;1;1;1])] with WPanicInsert 1 => true | _ => false end) = true /\
+  (match w_run compress_none c [([5], [1;1;1;1;1;1;1;1;1;1;1;1;1;1;1;1]); ([3], [])] with WPanicFinish => true | _ => false end) = true /\
+  (match w_run compress_none (mk_wcfg 0 0 4096 1 0) [([5], []); ([5], [])] with WPanicInsert 1 => true | _ => false end) = true /\
+  (match w_run compress_none c [([3], [1;1;1;1;1;1;1;1;1;1;1;1;1;1;1;1]); ([5], [])] with WFile _ _ _ => true | _ => false end) = true.
+Proof. vm_compute. repeat split. Qed.
